@@ -89,7 +89,7 @@ class UntypedAtomic(AnyAtomicType):
                 return op(self.value, other.value)
             case bool():
                 # Cast to xs:boolean
-                value = self.value.strip()
+                value = self.value.strip(' \t\n\r')
                 if value not in BOOLEAN_VALUES:
                     raise ValueError("{!r} cannot be cast to xs:boolean".format(self.value))
                 return op(value in ('1', 'true'), other)
